@@ -637,3 +637,10 @@ if __name__ == "__main__":
     except ToolError as e:
         log("TOOL-ERROR: %s" % e)
         sys.exit(2)
+    except SystemExit:
+        raise
+    except BaseException as e:      # a defect of the runner itself is a tool error, never a verdict
+        import traceback
+        traceback.print_exc()
+        log("TOOL-ERROR: runner failed: %r" % (e,))
+        sys.exit(2)
